@@ -121,13 +121,16 @@ def same_message(sent, got, sender_unique):
     return sf == gf and len(got.fds) == sf.get(F_UNIX_FDS, 0)
 
 
-def run_history(bus, events, budget_ms=None):
-    """returns (tokens, notes).  notes: dict(intact_bad=[...], drift_ms=float, closed=[...])"""
+def run_history(bus, events, pipeline=False):
+    """returns (tokens, notes).  notes: dict(intact_bad=[...], drift_ms=float, fifo_bad=[...]).
+    pipeline=True: maximal runs of consecutive sends by one connection (distinct serials) are written back to back
+    without waiting; the outputs are attributed to the individual sends afterwards (forward: by body token, error: by
+    reply serial) and the arrival order at each recipient must follow the order of writing (per-sender FIFO)."""
     conns, uniq, by_unique = {}, {}, {}
     sent = {}
     nextid = 0
     toks = []
-    notes = {"intact_bad": [], "drift_ms": 0.0, "forwarded": 0}
+    notes = {"intact_bad": [], "drift_ms": 0.0, "forwarded": 0, "fifo_bad": [], "pipelined": 0}
     devnull = os.open("/dev/null", os.O_RDONLY)
     t_start = time.time()
     nominal = 0.0
@@ -171,9 +174,53 @@ def run_history(bus, events, budget_ms=None):
             outs.extend((k, x) for x in mine)
         return "+".join("%d:%s" % o for o in outs) if outs else "-"
 
+    def group_end(i):
+        """end index (exclusive) of the run of pipelinable sends starting at i"""
+        f0 = events[i].split(".")
+        serials = {f0[5]}
+        j = i + 1
+        while j < len(events):
+            f = events[j].split(".")
+            if f[0] != "S" or f[1] != f0[1] or f[5] in serials:
+                break
+            serials.add(f[5])
+            j += 1
+        return j
+
     try:
-        for tok in events:
+        i = -1
+        while i + 1 < len(events):
+            i += 1
+            tok = events[i]
             f = tok.split(".")
+            if pipeline and f[0] == "S" and int(f[1]) in conns and group_end(i) > i + 1:
+                j = group_end(i)
+                k = int(f[1])
+                by_token, by_serial = {}, {}
+                for n in range(i, j):
+                    g = events[n].split(".")
+                    m = build_msg(g[1:], uniq)
+                    sent[int(g[9])] = (k, m)
+                    by_token[g[9]], by_serial[g[5]] = n, n
+                    conns[k].send(m, fds=[devnull] * int(g[8]))
+                notes["pipelined"] += j - i
+                merged = collect()
+                per_step = {n: [] for n in range(i, j)}
+                last = {}
+                for x in ([] if merged == "-" else merged.split("+")):
+                    r, d = x.split(":", 1)
+                    parts = d.split(".")
+                    n = by_token.get(parts[2]) if parts[0] == "F" else by_serial.get(parts[2]) if parts[0] == "E" else None
+                    if n is None:
+                        n = j - 1                      # not attributable: leave it on the last step, the diff will show it
+                    elif last.get(r, -1) > n:
+                        notes["fifo_bad"].append((events[n], merged))
+                    last[r] = max(last.get(r, -1), n)
+                    per_step[n].append(x)
+                for n in range(i, j):
+                    toks.append("+".join(per_step[n]) if per_step[n] else "-")
+                i = j - 1
+                continue
             if f[0][0] == "C":
                 c = bus.connect(want_fds=(f[0][1] == "1"))
                 c.serial = HIGH
@@ -256,13 +303,15 @@ def run_chunk(args):
     bus = Bus(exe, cfg)
     res = []
     try:
-        for idx, events in hists:
+        for h in hists:
+            idx, events = h[0], h[1]
+            pipeline = len(h) > 2 and h[2]
             try:
-                toks, notes = run_history(bus, events)
+                toks, notes = run_history(bus, events, pipeline)
                 # timed configuration: the model assumes non-tick steps take no time; rerun when the machine was too slow
                 tries = 0
                 while cfg[2] >= 0 and notes["drift_ms"] > cfg[2] / 4.0 and tries < 3:
-                    toks, notes = run_history(bus, events)
+                    toks, notes = run_history(bus, events, pipeline)
                     tries += 1
                 notes["tainted"] = cfg[2] >= 0 and notes["drift_ms"] > cfg[2] / 4.0
                 res.append((idx, toks, notes))
